@@ -1,5 +1,6 @@
 """Which rules decide which property, and the runner groups that produce the rule results."""
-from . import rules_struct, rules_plan, rules_loop, rules_api, rules_mor
+from . import rules_struct, rules_plan, rules_loop, rules_api, rules_mor, rules_rt, rules_cc, rules_x
+from .mir import Facts
 
 # ---------------------------------------------------------------------------
 # runner groups: name -> function(ctx) -> list[RuleResult]; memoised per run
@@ -41,13 +42,89 @@ def g_mor(ctx):
     return ctx.per_model(["T-MOR", "T-AGE", "T-PRUNE-USE"], f)
 
 
+def _rt_facts(ctx):
+    return ctx.memo("facts_rt", lambda: Facts(ctx.art.mir_facts("eqlog_runtime")))
+
+
+def _rt_trees(ctx):
+    return ctx.memo("trees_rt", lambda: ctx.art.source_trees(["eqlog-runtime/src/prefix_tree.rs", "eqlog-runtime/src/unification.rs"]))
+
+
+def g_rt_mir(ctx):
+    F = _rt_facts(ctx)
+    size, bal = rules_rt.rule_size_bal(F)
+    out = [rules_rt.rule_mapfree(F), rules_rt.rule_freeze(F), rules_rt.rule_unsafe(F), rules_rt.rule_cborder(F), rules_rt.rule_len(F),
+           size, bal, rules_rt.rule_sym(F)]
+    for r in out:
+        r.counts["mir_bodies"] = len(F.bodies)
+    return out
+
+
+def g_rt_syn(ctx):
+    t = _rt_trees(ctx)
+    return [rules_rt.rule_uf(t), rules_rt.rule_sib(t), rules_rt.rule_prune(t)]
+
+
+def g_prune_use(ctx):
+    return ctx.per_model(["T-PRUNE-USE"], lambda p: [rules_mor.rule_prune_use(p.model)])
+
+
+def _cc_facts(ctx):
+    return ctx.memo("facts_cc", lambda: Facts(ctx.art.mir_facts("eqlog")))
+
+
+def g_cc_digest(ctx):
+    return [rules_cc.rule_digest(_cc_facts(ctx))]
+
+
+def g_cc_diag(ctx):
+    F = _cc_facts(ctx)
+    return [rules_cc.rule_panic(F), rules_cc.rule_lines(F)]
+
+
+def g_cc_det(ctx):
+    F = _cc_facts(ctx)
+    return [rules_cc.rule_det(F, "M-DET", expect_positive=("hash-iteration", "error::transitive_closure")), rules_cc.rule_par(F), rules_cc.rule_dirtaint(F)]
+
+
+def g_cc_misc(ctx):
+    F = _cc_facts(ctx)
+    return [rules_cc.rule_funcdom(F), rules_cc.rule_emit(F)]
+
+
+def g_rt_det(ctx):
+    return [rules_cc.rule_det(_rt_facts(ctx), "M-DETRT")]
+
+
+def g_x(ctx):
+    return ctx.per_model(["T-X", "T-DET"], lambda p: [rules_x.rule_x(p), rules_x.rule_det_emitted(p)])
+
+
+def g_typecheck(ctx):
+    # quick: corpus in both build modes, shipped theories in module mode only (the repository's own test build compiles
+    # their component mode); thorough: everything in both modes
+    return [rules_x.rule_typecheck(ctx.programs(), full=(ctx.tier == "thorough"))] + ctx.per_model([], lambda p: [])
+
+
 GROUPS = {
+    "cc_digest": g_cc_digest,
+    "cc_diag": g_cc_diag,
+    "cc_det": g_cc_det,
+    "cc_misc": g_cc_misc,
+    "rt_det": g_rt_det,
+    "x": g_x,
+    "typecheck": g_typecheck,
+    "rt_mir": g_rt_mir,
+    "rt_syn": g_rt_syn,
+    "prune_use": g_prune_use,
     "mor": g_mor,
     "api": g_api,
     "struct": g_struct,
     "plan": g_plan,
     "loop": g_loop,
 }
+
+EMITTED_GROUPS = ("struct", "plan", "loop", "api", "mor", "x", "typecheck", "prune_use")
 
 # rule id -> group
 RULE_GROUP = {
@@ -56,6 +133,10 @@ RULE_GROUP = {
     "T-PLAN": "plan", "T-SEMI": "plan", "T-ENV": "plan",
     "T-LOOP": "loop", "T-PENDING": "loop",
     "T-MOR": "mor", "T-AGE": "mor", "T-PRUNE-USE": "mor",
+    "M-DIGEST": "cc_digest", "M-PANIC": "cc_diag", "M-LINES": "cc_diag", "M-DET": "cc_det", "M-PAR": "cc_det", "M-DIRTAINT": "cc_det",
+    "M-FUNCDOM": "cc_misc", "M-EMIT": "cc_misc", "M-DETRT": "rt_det", "T-X": "x", "T-DET": "x", "T-TYPECHECK": "typecheck",
+    "M-MAPFREE": "rt_mir", "M-FREEZE": "rt_mir", "M-UNSAFE": "rt_mir", "M-CBORDER": "rt_mir", "M-LEN": "rt_mir", "M-SIZE": "rt_mir",
+    "M-BAL": "rt_mir", "M-SYM": "rt_mir", "M-UF": "rt_syn", "S-SIB": "rt_syn", "S-PRUNE": "rt_syn",
     "T-API": "api", "T-ALLOC": "api", "T-ENUM": "api",
 }
 
@@ -69,8 +150,17 @@ PROPERTIES = {
     "C02": {"rules": ["T-PLAN", "T-DIAG", "T-LOOP", "T-API", "T-ALLOC"], "level": "translation_validation"},
     "C03": {"rules": ["T-SEMI", "T-MOVE", "T-CANON", "T-LOOP", "T-INS", "T-DIAG", "T-AGE"], "level": "translation_validation"},
     "C04": {"rules": ["T-FAM", "T-INS", "T-MOVE", "T-CANON", "T-DIAG", "T-DIRTY", "T-API", "T-ENUM", "T-MOR"], "level": "translation_validation"},
-    "C05": {"rules": ["T-API", "T-INS"], "level": "other"},
-    "C06": {"rules": ["T-ALLOC", "T-DIRTY", "T-MOVE", "T-CANON"], "level": "other"},
+    "C05": {"rules": ["T-API", "T-INS", "M-UF"], "level": "other"},
+    "C08": {"rules": ["S-SIB", "S-PRUNE", "T-PRUNE-USE", "M-FREEZE", "M-UNSAFE", "M-MAPFREE", "M-CBORDER"], "level": "other"},
+    "C14": {"rules": ["M-FREEZE", "M-UNSAFE", "M-MAPFREE", "M-CBORDER", "M-LEN", "M-SIZE", "M-BAL"], "level": "other"},
+    "C18": {"rules": ["M-SYM", "T-MOR"], "level": "other"},
+    "C06": {"rules": ["T-ALLOC", "M-FUNCDOM", "T-DIRTY", "T-MOVE", "T-CANON", "S-PRUNE"], "level": "other"},
+    "C09": {"rules": ["T-TYPECHECK", "T-ENV", "T-X", "T-DELTA"], "level": "translation_validation"},
+    "C11": {"rules": ["M-PANIC", "M-LINES"], "level": "other"},
+    "C12": {"rules": ["M-DIGEST"], "level": "other"},
+    "C13": {"rules": ["M-DET", "M-PAR", "M-DIRTAINT"], "level": "other"},
+    "C19": {"rules": ["T-X", "M-EMIT"], "level": "translation_validation"},
+    "C20": {"rules": ["M-DETRT", "T-DET", "M-UNSAFE", "M-FREEZE"], "level": "other"},
     "C15": {"rules": ["T-ALLOC", "T-ENUM", "T-DELTA"], "level": "other"},
     "C07": {"rules": ["T-LOOP", "T-PENDING"], "level": "other"},
     "C17": {"rules": ["T-MOR", "T-AGE", "T-LOOP"], "level": "translation_validation"},
